@@ -488,7 +488,10 @@ pub fn get_file_ticket<SystemType: System>
             {
                 Ok(timestamp) =>
                 {
+                    /*  The empty FileState means nothing is remembered about the file.  Its timestamp
+                        of 0 must not be taken for the modified date of a file that really has it. */
                     if timestamp == assumed_file_state.timestamp
+                        && *assumed_file_state != FileState::empty()
                     {
                         return Ok(Some(assumed_file_state.ticket.clone()))
                     }
@@ -578,6 +581,7 @@ pub fn get_actual_file_state<SystemType: System>
     };
 
     if timestamp == assumed_file_state.timestamp
+        && *assumed_file_state != FileState::empty()
     {
         return Ok(
             FileState
